@@ -34,6 +34,7 @@ func checkC03(c *Ctx) {
 	checkC03FillPair(c)
 	checkC03ScanSet(c)
 	checkC03NullIffNil(c)
+	checkC03BytesArm(c)
 	checkC03LookupOrder(c)
 	checkC03MapRows(c)
 	checkC03FreshRow(c)
